@@ -368,7 +368,7 @@ let do_dense args =
         | "s" -> DSet (nat a.(1), nat a.(2), a.(3) <> "0") | "g" -> DGet (nat a.(1), nat a.(2)) | "f" -> DFlip (nat a.(1), nat a.(2))
         | "c" -> DClear | "y" -> DCopy (nat a.(1), nat a.(2), junk_of a.(3))
         | "R" -> DCopyRows (nats_dot a.(1), junk_of a.(2)) | "C" -> DCopyCols (nats_dot a.(1), junk_of a.(2))
-        | "x" -> DXorRows (nat a.(1), nat a.(2)) | "w" -> DRowWeight (nat a.(1)) | "W" -> DColWeight (nat a.(1)) | "e" -> DRowEmpty (nat a.(1)) | "I" -> DRowWeightIF (nat a.(1), nat a.(2))
+        | "x" -> DXorRows (nat a.(1), nat a.(2)) | "w" -> DRowWeight (nat a.(1)) | "W" -> DColWeight (nat a.(1)) | "e" -> DRowEmpty (nat a.(1)) | "I" -> DRowWeightIF (nat a.(1), nat a.(2)) | "p" -> DSwapPtr (nat a.(1), nat a.(2))
         | _ -> failwith "op" in
       let (m', res) = dense_step !m op in
       m := m';
